@@ -1,5 +1,27 @@
-import Hive.Base.Proto
-open Hive.Proto
+import Hive.Model.C12bBytesFilter
+import Hive.Model.C12bWalker
+import Hive.Model.C12bTimeHeap
+import Hive.Model.C12bIndexedStorage
+import Hive.Model.C12bOnChangeMap
+import Hive.Model.C12bSubMgr
+open Hive.Proto Hive.C12b
 
-/-- Placeholder driver: answers `unimplemented` to every request. -/
-def main : IO Unit := run () (fun s _ => (s, "unimplemented"))
+/-- One state per container model; the first token of a request selects the model. -/
+structure D where
+  bf : BF.St := BF.init 1
+  wk : WK.St := WK.init false
+  th : TH.St := TH.init
+  ix : IX.St := IX.init
+  oc : OC.St := OC.init false false false false
+  sm : SM.St := SM.init 0
+
+def stepD (d : D) : List String → D × String
+  | "bf" :: toks => let r := BF.stepLine d.bf toks; ({ d with bf := r.1 }, r.2)
+  | "wk" :: toks => let r := WK.stepLine d.wk toks; ({ d with wk := r.1 }, r.2)
+  | "th" :: toks => let r := TH.stepLine d.th toks; ({ d with th := r.1 }, r.2)
+  | "ix" :: toks => let r := IX.stepLine d.ix toks; ({ d with ix := r.1 }, r.2)
+  | "oc" :: toks => let r := OC.stepLine d.oc toks; ({ d with oc := r.1 }, r.2)
+  | "sm" :: toks => let r := SM.stepLine d.sm toks; ({ d with sm := r.1 }, r.2)
+  | _ => (d, "bad-op")
+
+def main : IO Unit := run ({} : D) stepD
